@@ -23,6 +23,33 @@ def load_check(pid):
     return importlib.import_module('adsan.checks.' + pid.lower())
 
 
+import contextlib
+
+
+@contextlib.contextmanager
+def ambient(ctx, case):
+    """ambient state of the interpreter / of NumPy that a caller may legitimately have set and that no result may depend on:
+    chosen from the case seed (so that a replay sees the same), restored afterwards.  1, 3: terse print options (arrays are
+    abbreviated with '...' from 2 resp. 4 entries on); 2: a garbage collection right before the case"""
+    import numpy, gc
+    sd = case.get('seed') if isinstance(case, dict) else None
+    k = (int(sd) >> 5) % 4 if isinstance(sd, int) else 0
+    saved = numpy.get_printoptions()
+    try:
+        if k == 1:
+            numpy.set_printoptions(threshold=3, edgeitems=1, precision=2, linewidth=40)
+        elif k == 3:
+            numpy.set_printoptions(threshold=1, edgeitems=1, precision=1, suppress=True)
+        elif k == 2:
+            gc.collect()
+        ctx.extra.setdefault('ambient_state_cases', {})
+        key = ['default', 'print options threshold=3', 'gc.collect() before the case', 'print options threshold=1'][k]
+        ctx.extra['ambient_state_cases'][key] = ctx.extra['ambient_state_cases'].get(key, 0) + 1
+        yield k
+    finally:
+        numpy.set_printoptions(**saved)
+
+
 def run_shard(pid, tier, seed, shard, nshards, out):
     import warnings
     import numpy
@@ -45,7 +72,8 @@ def run_shard(pid, tier, seed, shard, nshards, out):
         ctx.current_case = c
         ctx.cases += 1
         try:
-            mod.run_case(ctx, c)
+            with ambient(ctx, c):
+                mod.run_case(ctx, c)
         except Exception as e:   # a failure of the harness itself, never a verdict on the SUT
             ctx.monitor_error('run_case', e)
     ctx.current_case = None
@@ -155,7 +183,8 @@ def replay(path):
     if hasattr(mod, 'setup'):
         mod.setup(ctx, ctx.tier)
     ctx.current_case = case
-    mod.run_case(ctx, case)
+    with ambient(ctx, case):
+        mod.run_case(ctx, case)
     if hasattr(mod, 'teardown'):
         mod.teardown(ctx)
     known = core.load_known()
@@ -173,4 +202,13 @@ def replay(path):
 
 
 if __name__ == '__main__':
-    sys.exit(main())
+    try:
+        rc = main()
+    except SystemExit:
+        raise
+    except BaseException as e:          # a failure of the harness itself is never a verdict on the code under test
+        import traceback
+        traceback.print_exc()
+        print('INCONCLUSIVE harness error: %s: %s' % (type(e).__name__, str(e)[:200]))
+        rc = 2
+    sys.exit(rc)
